@@ -17,6 +17,7 @@ DECIDED = ("Writer (Display for Board, Debug for CastleRights) and reader (parse
            "R5 en passant: for each file and side to move the written square parses back to the same file (file letter 'a'+f, rank digit 6/3) and ' - ' stands for no marker; "
            "R6 clocks: written half-move then full-move, read in the same order into the same fields, at most 4 digits fit u16; R7 Board::standard() is the standard position.")
 DECIDED = DECIDED + ' R8 premise re-run here: the derived state (checkers / pinned) of a parsed board is recomputed exactly, on every way out of update_pin_info (C03.R4, R6).'
+DECIDED = DECIDED + ' R90 premises re-run here: C04 C04.R2, C04.R3; C02 C02.R2.'
 NOT_DECIDED = "round trip on arbitrary boards as strings (needs the loops' semantics on actual positions); equality of hash/derived state after a round trip (C04/C03 clauses)"
 EXPLANATION = ("K4 with the generic-iteration abstraction for the writer's loops and region analysis (between the parser's whitespace calls) for the reader; "
                "formatted output is modelled as ordered emit events through core::fmt.")
@@ -658,6 +659,15 @@ def r7(ctx):
 def r_premise(ctx):
     from analysis.runner import premise
     premise(ctx, "C03", {"C03.R4", "C03.R6"}, "the round trip must reproduce the derived state; the from-scratch computation of checkers/pinned run by the parser is no longer exact")
+
+
+@rule("C05.R90", 'premises shared with other properties: C04 (C04.R2, C04.R3); C02 (C02.R2)')
+def r_premises_shared(ctx):
+    """This property's argument rests on these rules of other properties (what it calls is assumed to behave); they are re-run here so that a
+    breakage of one of them is reported by this property's own check as well."""
+    from analysis.runner import premise
+    premise(ctx, 'C04', ['C04.R2', 'C04.R3'] and set(['C04.R2', 'C04.R3']), 'a board and the board parsed back from its text must also hash alike; the hash is no longer a function of the position')
+    premise(ctx, 'C02', ['C02.R2'] and set(['C02.R2']), 'boards reached by moves are written and read back; make-move no longer updates the placement as the rules prescribe')
 
 
 # ------------------------------------------------------------------ controls
